@@ -499,6 +499,7 @@ func runGraphs(r *core.Run) {
 	}
 	r.Set("graph_nodes_completed", completed)
 	r.Set("graphs", total)
+	bounds["graph_nodes"] = completed
 }
 
 func replayGraph(r *core.Run, gc *GraphCase) {
